@@ -1,5 +1,6 @@
 CONSTANTS
   MaxDepth = 100000
+  Checks = {"verdict", "panic"}
 INIT Init
 NEXT Next
 POSTCONDITION TraceAccepted
